@@ -48,9 +48,12 @@ def judge(ctx, g, prune, o, stopping):
     ctx.extra["max_reward_error_seen"] = max(ctx.extra.get("max_reward_error_seen", 0.0), float(worst))
     for s in states:
         if abs(Fr(S.rewards[s]) - w[s]) > THR + Fr(1, 10 ** 9) * scale:
+            # listed finding = residual stop: Bellman-consistent up to the threshold (checked above) AND below the
+            # exact value everywhere (C02Bound.rew_le_least: the iterates never exceed it)
+            below = all(Fr(S.rewards[t]) <= w[t] + Fr(1, 10 ** 9) * scale for t in states)
             ctx.violation("within-tolerance", inp,
                           {"state": s, "reported": S.rewards[s], "value": w[s], "residual": float(res),
-                           "conditioned": S.cond_as_solved()}, key=KEY_TOL)
+                           "conditioned": S.cond_as_solved()}, key=KEY_TOL if below else None)
             return True
     if g.get("_meta", {}).get("family") == "integer":
         # no float anywhere in the description: the solver's arithmetic is exact integer arithmetic
@@ -121,8 +124,13 @@ def run(ctx, model=None):
                                    [gen.stopping_game(rng, dead_frac=0.5) for _ in range(6)], "bellman-consistency", fields=[2])
     for k in range(8 if ctx.quick() else 100):
         check_case(ctx, gen.tiny_best_game(rng), model)
+        check_case(ctx, gen.zero_prob_dead_game(rng), model)
+        check_case(ctx, gen.subnormal_reach_game(rng), model)
+        check_case(ctx, gen.duplicate_label_game(rng), model)
         check_case(ctx, gen.tiny_dead_decimal_game(rng), model)
         check_case(ctx, gen.big_slow_reward_game(rng), model, limit=60.0)
+    # conditioning cascades of more than a thousand rounds (one orphaned state per round)
+    check_case(ctx, gen.cascade_game(1050), None, limit=120.0)
     for k in range(20 if ctx.quick() else 300):
         check_case(ctx, gen.integer_game(rng), None)
         check_case(ctx, gen.with_huge_rewards(gen.layered_tie_game(rng)), model)
